@@ -14,10 +14,16 @@ def classify(w):
         return "zero_order_absorption_requested_with_transits"
     if last == "abs_inst" and transits_before:
         return "instantaneous_absorption_requested_with_transits"
-    if last == "abs_inst" and "bio_add" in prev and "bio_remove" not in prev and "bioavailability" in what:
+    bio_present = (start == "pheno_rich" or "bio_add" in prev) and "bio_remove" not in prev
+    if last == "abs_inst" and bio_present and "changed bioavailability from True to False" in what:
         return "instantaneous_absorption_drops_bioavailability"
-    if what.startswith("reversibility") and last in ("transits_1", "transits_3") and "bio_add" in prev and "bio_remove" not in prev:
+    if last == "abs_seq" and bio_present and "changed bioavailability from True to False" in what:
+        return "seq_absorption_after_zero_order_drops_bioavailability"
+    if what.startswith("reversibility") and last in ("transits_1", "transits_3") and bio_present:
         return "transit_removal_loses_bioavailability"
+    absorb = [x for x in prev if x.startswith("abs_")]
+    if last == "lag_on" and absorb and absorb[-1] == "abs_seq" and what.startswith("reversibility"):
+        return "lag_time_requested_with_seq_zo_fo_absorption"
     if last in ("transits_1", "transits_1_nodepot") and "transits_3" in prev and what.startswith("detectability"):
         i = prev.index("transits_3")
         had_depot = start == "pheno_oral" or any(x in ("abs_fo", "abs_seq") for x in prev[:i])
